@@ -13,6 +13,7 @@ import torch
 from ..extract import c03_catalogue as C
 from ..extract import c03_getitem
 from ..extract import c03_lean
+from ..extract import c03_opv
 
 UNSUP = re.compile(r"not (currently )?supported|does not support|does not accept|unsupported", re.I)
 INTK = ("int", "negint", "t0", "t0neg")
@@ -313,8 +314,10 @@ def run_case(chk, name, batch, meta, op, dense, kinds, idx, lean):
     nidx = norm_index(idx, d)
     tg = tags(name, meta, nk, nidx, shape)
     desc = f"{name} b={batch} idx={C.describe_index(idx)}"
+    all_ok = True
     for debug in (True, False):
         r = evaluate(op, dense, idx, debug)
+        all_ok = all_ok and r[0] == "ok"
         chk.case(desc + f" debug={debug}", nontrivial=(r[0] == "ok" and dense[idx].numel() > 1))
         chk.count("outcome:" + r[0])
         if len(r) > 1 and r[0] == "ok":
@@ -329,6 +332,7 @@ def run_case(chk, name, batch, meta, op, dense, kinds, idx, lean):
     for k in nk:
         chk.count("kind:" + k)
     chk.count("class:" + name.split("(")[0].split("[")[0])
+    return tg, all_ok
 
 
 def check_diagonal(chk, name, batch, op, dense):
@@ -371,6 +375,8 @@ def run(chk):
     if not dev:
         chk.prove("LinOp.Properties.C03", ["LinOp/C03", "LinOp/Generated/C03Getitem.lean", "LinOp/Core/Parse.lean"])
     lean = c03_lean.Lines(chk, enabled=not dev)
+    opv = c03_opv.OpvLines(chk, lean)
+    front_quota = 3 if chk.tier == "quick" else 8
     for name, batch, meta, build, g in instances(chk.rng, chk.tier):
         opseed = chk.rng.randrange(2 ** 31)
         g.rng = random.Random(opseed)
@@ -379,6 +385,8 @@ def run(chk):
         d = dense.dim()
         shape = tuple(dense.shape)
         check_diagonal(chk, name, batch, op, dense)
+        opv.add_instance(name, batch, op, dense)
+        nfront = 0
         for kinds in kind_tuples(chk.rng, d, chk.tier):
             try:
                 idx = concrete(chk.rng, kinds, shape)
@@ -386,12 +394,20 @@ def run(chk):
             except Exception as e:  # noqa  generator produced an index torch rejects: not a case
                 chk.count("generator-rejected")
                 continue
-            run_case(chk, name, batch, meta, op, dense, kinds, idx, {"opseed": opseed})
+            tg, ok = run_case(chk, name, batch, meta, op, dense, kinds, idx, {"opseed": opseed})
             lean.add_index_case(shape, idx)
+            if ok and "absorbed" in tg and nfront < front_quota:
+                # the composed front-end model (normalise, dispatch, convert, class _get_indices) vs dense[idx]
+                opv.add_front(name, batch, dense, idx)
+                nfront += 1
         for kinds, idx in twostep_indices(chk.rng, shape, chk.tier):
             run_case(chk, name, batch, meta, op, dense, kinds, idx, {"opseed": opseed})
         lean.add_class_cases(name, meta, op, dense, chk.rng)
     lean.add_helper_cases(chk.rng)
+    chk.count("opv:structural-nodes", opv.enc.structural) if opv.enc.structural else None
+    chk.count("opv:opaque-nodes", opv.enc.opaque) if opv.enc.opaque else None
+    for cname in sorted(opv.enc.classes):
+        chk.count("opv:class:" + cname)
     lean.flush()
 
 
